@@ -5,6 +5,11 @@ import Vanguard.Lemmas.Serve
   `serve` records which handler (if any) was invoked.  Proved: a request that `validate` rejects with
   an HTTP error is never dispatched (for every configuration, request and backend script); an
   unknown endpoint is dispatched to the unknown-endpoint handler only, and only if one is configured.
+  Also proved: a request whose backend request cannot be built (undecodable leading message for a
+  Connect GET target) reaches no handler and leaves the backend record empty
+  (`setup_error_no_dispatch`, `undecodable_leading_message_no_dispatch`); exactly when a service
+  handler runs (`svc_dispatch_iff`) and exactly when the unknown-endpoint handler runs
+  (`unknown_dispatch_iff`).
   "At most one" is structural in the model (one `dispatch` per observation) and is *measured* on the
   implementation by the harness (call counter of the scripted handlers, `disp=MULTIPLE`); context
   cancellation after return (`ctx=1`) and absence of post-return I/O are observed by the harness.
@@ -39,5 +44,100 @@ theorem svc_dispatch_only_if_valid (w : World) (sc : Scenario) (h : (serve w sc)
     cases e with
     | status c a => rw [rejected_no_dispatch w sc c a hv] at h; cases h
     | notFound => rw [unknown_endpoint_dispatch w sc hv] at h; split at h <;> cases h
+
+/-- A rejected request leaves the backend untouched: no handler is invoked, nothing is read from or
+    written by a handler (the backend record stays empty), whatever the backend would have done. -/
+theorem rejected_backend_untouched (w : World) (sc : Scenario) (code : Nat) (allow : Option Bytes)
+    (h : validate w sc.conf sc.req = .error (.status code allow)) :
+    (serve w sc).dispatch = .none ∧ (serve w sc).backend = {} := by
+  unfold serve; simp [h]
+
+/-- **Setup errors**: when the backend's request cannot be built - a Connect GET target needs the
+    leading message, and that message cannot be read or decoded - the RPC ends with the error
+    response and no handler is invoked. -/
+theorem setup_error_no_dispatch (w : World) (sc : Scenario) (o : Op) (x : Sink × Bool)
+    (hv : validate w sc.conf sc.req = .ok o) (hp : o.passThrough = false)
+    (hpre : transcodePre w o (o.plan w) { op := o, src := sc.src, sink := {} } = .error x) :
+    (serve w sc).dispatch = .none ∧ (serve w sc).backend = {} ∧ (serve w sc).sink = x.1 := by
+  unfold serve
+  simp only [hv, hp, Bool.false_eq_true, if_false]
+  unfold serveTranscode
+  simp [hpre]
+
+/-- An undecodable leading message is such a setup error. -/
+theorem undecodable_leading_message_no_dispatch (w : World) (sc : Scenario) (o : Op) (data : Bytes) (c : Bool) (e : Err)
+    (hv : validate w sc.conf sc.req = .ok o) (hp : o.passThrough = false) (hg : (o.plan w).useGet = true)
+    (hr : (readRequestMessage w { op := o, src := sc.src, sink := {} } false).1 = .ok (data, c))
+    (hd : decodeRequest w o (o.plan w) data c = .error e) :
+    (serve w sc).dispatch = .none := by
+  have : ∃ x, transcodePre w o (o.plan w) { op := o, src := sc.src, sink := {} } = .error x := by
+    unfold transcodePre
+    simp only [hg, if_true, hr, hd]
+    exact ⟨_, rfl⟩
+  obtain ⟨x, hx⟩ := this
+  exact (setup_error_no_dispatch w sc o x hv hp hx).1
+
+/-- **Exactly when a service handler runs**: the request passed validation and either needs no
+    conversion or its backend request could be built. -/
+theorem svc_dispatch_iff (w : World) (sc : Scenario) :
+    (serve w sc).dispatch = .svc ↔
+      ∃ o, validate w sc.conf sc.req = .ok o ∧
+        (o.passThrough = true ∨ ∃ y, transcodePre w o (o.plan w) { op := o, src := sc.src, sink := {} } = .ok y) := by
+  constructor
+  · intro h
+    obtain ⟨o, hv⟩ := svc_dispatch_only_if_valid w sc h
+    refine ⟨o, hv, ?_⟩
+    by_cases hp : o.passThrough = true
+    · exact Or.inl hp
+    · right
+      have hp' : o.passThrough = false := by simpa using hp
+      cases hpre : transcodePre w o (o.plan w) { op := o, src := sc.src, sink := {} } with
+      | ok y => exact ⟨y, rfl⟩
+      | error x =>
+        rw [(setup_error_no_dispatch w sc o x hv hp' hpre).1] at h; cases h
+  · rintro ⟨o, hv, hor⟩
+    unfold serve
+    simp only [hv]
+    by_cases hp : o.passThrough = true
+    · simp only [hp, if_true]
+      split <;> simp [forwardObs]
+    · have hp' : o.passThrough = false := by simpa using hp
+      rcases hor with h1 | ⟨y, hy⟩
+      · exact absurd h1 hp
+      · simp only [hp', Bool.false_eq_true, if_false]
+        unfold serveTranscode
+        simp only [hy]
+        unfold transcodeRun
+        simp only
+
+/-- The handler that runs is the only one: the observation has a single dispatch, which is the
+    unknown-endpoint handler exactly for unmatched paths with such a handler configured. -/
+theorem unknown_dispatch_iff (w : World) (sc : Scenario) :
+    (serve w sc).dispatch = .unknown ↔ validate w sc.conf sc.req = .error .notFound ∧ sc.conf.unknownHandler = true := by
+  constructor
+  · intro h
+    cases hv : validate w sc.conf sc.req with
+    | ok o =>
+      have : (serve w sc).dispatch = .svc ∨ (serve w sc).dispatch = .none := by
+        by_cases hs : (serve w sc).dispatch = .svc
+        · exact Or.inl hs
+        · right
+          by_cases hp : o.passThrough = true
+          · exfalso; exact hs ((svc_dispatch_iff w sc).2 ⟨o, hv, Or.inl hp⟩)
+          · have hp' : o.passThrough = false := by simpa using hp
+            cases hpre : transcodePre w o (o.plan w) { op := o, src := sc.src, sink := {} } with
+            | ok y => exfalso; exact hs ((svc_dispatch_iff w sc).2 ⟨o, hv, Or.inr ⟨y, hpre⟩⟩)
+            | error x => exact (setup_error_no_dispatch w sc o x hv hp' hpre).1
+      rcases this with h1 | h1 <;> rw [h1] at h <;> cases h
+    | error e =>
+      cases e with
+      | status c a => rw [rejected_no_dispatch w sc c a hv] at h; cases h
+      | notFound =>
+        rw [unknown_endpoint_dispatch w sc hv] at h
+        by_cases hu : sc.conf.unknownHandler = true
+        · exact ⟨rfl, hu⟩
+        · simp [hu] at h
+  · rintro ⟨hv, hu⟩
+    rw [unknown_endpoint_dispatch w sc hv]; simp [hu]
 
 end Vanguard.C18
